@@ -37,7 +37,10 @@ where
 
       source.inner_subscribe(sctl.new_observer(
         move |_, _| {
-          if let Some(start_time) = *start_time_next.read().unwrap() {
+          // copy the start time out: no lock is held while the subscriber runs, so a subscriber
+          // that pushes into the source from its callback does not meet a lock held by its own thread
+          let start_time = *start_time_next.read().unwrap();
+          if let Some(start_time) = start_time {
             sctl_next.sink_next(start_time.elapsed());
           }
           *start_time_next.write().unwrap() = Some(Instant::now());
@@ -46,7 +49,8 @@ where
           sctl_error.sink_error(e);
         },
         move |serial| {
-          if let Some(start_time) = *start_time_complete.read().unwrap() {
+          let start_time = *start_time_complete.read().unwrap();
+          if let Some(start_time) = start_time {
             sctl_complete.sink_next(start_time.elapsed());
           }
           sctl_complete.sink_complete(&serial);
